@@ -368,7 +368,7 @@ pub fn run(tier: &str) -> i32 {
         // long bodies: every length up to 1300 bytes built from 1-, 2-, 3- and 4-byte
         // characters with 0-3 bytes of ASCII padding in front (valid UTF-8, not JSON, not a
         // number), and the same text inside an extra member of a valid document
-        let max_len = if quick { 700 } else { 1300 };
+        let max_len = if quick { 700 } else { 2600 };
         for unit in ["a", "\u{e9}", "\u{20ac}", "\u{1f600}"] {
             for pad in 0..4usize {
                 let mut n = pad;
@@ -493,7 +493,7 @@ pub fn run(tier: &str) -> i32 {
     out.samples.push(json!({"transform": "transform_bitcoin_mempool", "body": "800000\\n", "expected": "empty body"}));
     rep.out.merge(out);
     rep.evaluations = rep.out.states;
-    rep.rule = "all 10 exported transform functions + the testnet mempool endpoint object x statuses {0,199,200,201,404,500,2^64} x header sets {none, one, duplicates, 50}; text endpoints: all strings of length <= 4 over {0,1,9,+,-,space,newline,.,e,a,0xFF} plus 2^64-1, 2^64, leading zeros, trailing newline, non-ASCII digit; JSON endpoints: 16 leaf values placed at / next to / instead of the extracted path, with extra members, both member orders, duplicate keys, in 4 whitespace styles, every byte prefix, an invalid UTF-8 byte at every position; long bodies: every length up to 700 (1300 thorough) bytes of 1/2/3/4-byte characters with 0-3 bytes of ASCII padding, alone and inside an extra member of a valid document; distinct = distinct body bytes".into();
+    rep.rule = "all 10 exported transform functions + the testnet mempool endpoint object x statuses {0,199,200,201,404,500,2^64} x header sets (all subsets of size <= 2 of 18 realistic headers, duplicates, 50 headers, all 18); text endpoints: all strings of length <= 4 over {0,1,9,+,-,space,newline,.,e,a,0xFF} plus 2^64-1, 2^64, leading zeros, trailing newline, non-ASCII digit; JSON endpoints: 16 leaf values placed at / next to / instead of the extracted path, with extra members, both member orders, duplicate keys, in 4 whitespace styles, every byte prefix, an invalid UTF-8 byte at every position; long bodies: every length up to 700 (2600 thorough) bytes of 1/2/3/4-byte characters with 0-3 bytes of ASCII padding, alone and inside an extra member of a valid document; distinct = distinct body bytes".into();
     rep.bounds = json!({"tier": tier});
     rep.assume("documents are rendered from the harness's own AST, so the expected value at the path is known without a JSON parser");
     rep.assume("duplicate keys: either occurrence may be extracted; a leading '+' in a text body and numbers beyond f64 (1e400) are undecided");
